@@ -100,6 +100,49 @@ func H_C12_loss() {
 	vrt.Reach("done")
 }
 
+// H_C12_reuse: one loss object evaluated twice on pairs of independently chosen shapes: the value
+// depends only on the pair handed in, never on an earlier call.
+func H_C12_reuse() {
+	name := vrt.SParam("loss")
+	var compute func(yp, yt T) (T, error)
+	switch name {
+	case "MSE":
+		compute = losses.NewMSE().Compute
+	case "BCE":
+		compute = losses.NewBCE().Compute
+	default:
+		compute = losses.NewCE().Compute
+	}
+	for call := 0; call < 2; call++ {
+		B := vrt.Concretize(vrt.Int(vrt.Nm("B", call), 1, vrt.Param("maxb")))
+		dims := []int{B}
+		C := 1
+		if name == "CE" {
+			C = vrt.Concretize(vrt.Int(vrt.Nm("C", call), 1, vrt.Param("maxc")))
+			dims = []int{B, C}
+		}
+		yp, pe := mk(vrt.Nm("p", call), dims, vrt.Bool(vrt.Nm("tp", call)))
+		yt, te := mk(vrt.Nm("t", call), dims, false)
+		for k := range pe {
+			vrt.Assume(vrt.And(pe[k] >= -1e6, pe[k] <= 1e6))
+			vrt.Assume(vrt.And(te[k] >= -1e6, te[k] <= 1e6))
+		}
+		l, err := compute(yp, yt)
+		vrt.Assert("well-formed inputs accepted on every call of a reused loss object", err == nil)
+		if err != nil || l == nil {
+			return
+		}
+		f := vrt.Flat(l)
+		if len(vrt.Dims(l)) != 0 || len(f) != 1 {
+			vrt.Assert("loss is a scalar tensor", false)
+			return
+		}
+		vrt.AssertFinite("loss is finite", f[0])
+		vrt.AssertEqF("loss value (reused object)", f[0], refLoss(name, pe, te, B, C))
+	}
+	vrt.Reach("done")
+}
+
 // refLossGrad: d loss / d p[k].
 func refLossGrad(name string, p, t float64, B int) float64 {
 	n := float64(B)
